@@ -228,6 +228,13 @@ class Fork(Exception):
         self.alts = alts  # list of (label, cond or None, kind 'value'|'raise', payload)
 
 
+class _SplitKey:
+    """identity of one path-split decision that is not tied to an AST node of its own"""
+
+    def __init__(self, lineno):
+        self.lineno = lineno
+
+
 class PyRaise(Exception):
     def __init__(self, exc: SExc, line=None):
         self.exc = exc
@@ -911,7 +918,7 @@ class Engine:
         was = getattr(self, 'in_spec', False)
         self.in_spec = True
         try:
-            return self.truthy(self.ev(node, st))
+            return self.ev_cond(node, st)
         except PyRaise as r:
             raise Undecided('contract expression %r raises %s' % (s[:80], r.exc))
         finally:
@@ -1026,7 +1033,7 @@ class Engine:
         if isinstance(node, ast.Continue):
             return [(st, ('continue',))]
         if isinstance(node, ast.Assert):
-            c = self.truthy(self.ev(node.test, st))
+            c = self.ev_cond(node.test, st)
             outs = []
             s_ok = st.fork()
             s_ok.assume(c)
@@ -1050,7 +1057,7 @@ class Engine:
             e.line = node.lineno
             return [(st, ('raise', e))]
         if isinstance(node, ast.If):
-            c = self.truthy(self.ev(node.test, st))
+            c = self.ev_cond(node.test, st)
             outs = []
             s1 = st.fork()
             s1.assume(c)
@@ -1278,7 +1285,7 @@ class Engine:
             elem = from_z3(z3.Select(L.arr, k), L.et) if isinstance(L, SList) else (L[1] + k * L[3])
             self.assign(node.target, elem, body)
         else:
-            body.assume(self.truthy(self.ev(node.test, body)))
+            body.assume(self.ev_cond(node.test, body))
         if feasible(body.pc):
             body.trace.append('iter')
             self.ctx.add(core.satisfiable('%s/%s/vacuity/body-reachable' % (self.label, tag), list(body.pc)))
@@ -1309,7 +1316,7 @@ class Engine:
         if is_for:
             ex.assume(ex.env[spec.index] >= n_iter)
         else:
-            ex.assume(z3.Not(self.truthy(self.ev(node.test, ex))))
+            ex.assume(z3.Not(self.ev_cond(node.test, ex)))
         if feasible(ex.pc):
             ex.trace.append('loop-exit')
             if node.orelse:
@@ -1544,24 +1551,83 @@ class Engine:
         tt = parse_type(t)
         return from_z3(self.uf('attr_' + attr, ['U'], t)(term), tt)
 
-    def ev_BoolOp(self, node, st):
+    def ev_cond(self, node, st):
+        """truth value of an expression in a position where only its truth matters (if / while / assert tests, `not`, the
+        test of a conditional expression, contract clauses)"""
+        if isinstance(node, ast.BoolOp):
+            return self.ev_BoolOp(node, st, truth_only=True)
+        if isinstance(node, ast.UnaryOp) and isinstance(node.op, ast.Not):
+            return z3.Not(self.ev_cond(node.operand, st))
+        return self.truthy(self.ev(node, st))
+
+    def _split_keys(self, node, n):
+        """one path-split marker per operand of a short-circuit expression (the marker, not the operand node, keys the decision:
+        the operand may be a call that is itself split)"""
+        ks = getattr(node, '_pyvc_split_keys', None)
+        if ks is None:
+            ks = node._pyvc_split_keys = [_SplitKey(getattr(node, 'lineno', '?')) for _ in range(n)]
+        return ks
+
+    def ite_value(self, c, a, b):
+        """the value `a if c else b` of two already evaluated values"""
+        if a is b or (a is None and b is None):
+            return a
+        cs = z3.simplify(c)
+        if z3.is_true(cs):
+            return a
+        if z3.is_false(cs):
+            return b
+        ta = type_of_value(a)
+        tb = type_of_value(b)
+        t = ta if ta == tb else ('real' if {ta, tb} <= {'int', 'real'} else ('int' if {ta, tb} <= {'int', 'bool'} else None))
+        if t is None and 'U' in (ta, tb) and (isinstance(a, (str, SDotted)) or a is None or isinstance(b, (str, SDotted)) or b is None):
+            t = 'U'
+        if t is None or (isinstance(a, tuple) and a and isinstance(a[0], str)) or (isinstance(b, tuple) and b and isinstance(b[0], str)) or isinstance(a, (SRecord, SMap, SDict)) or isinstance(b, (SRecord, SMap, SDict)):
+            raise Undecided('value of a short-circuit expression whose operands have different types (%s / %s)' % (type_key(ta) if ta else ta, type_key(tb) if tb else tb))
+        return from_z3(z3.If(c, to_z3(a, t), to_z3(b, t)), t)
+
+    def ev_BoolOp(self, node, st, truth_only=False):
         # short-circuit: operand k is evaluated (and its safety obligations are generated) under the assumption
         # that the previous operands did not already decide the result
+        is_and = isinstance(node.op, ast.And)
+        in_spec = getattr(self, 'in_spec', False)
         s2 = State(st.env, list(st.pc))
         s2.decided = st.decided
         s2.decided_used = st.decided_used
         s2.trace = st.trace
         vals = []
+        raws = []
         guards = []
-        for v in node.values:
+        keys = self._split_keys(node, len(node.values))
+        for k, v in enumerate(node.values):
             before = len(s2.pc)
-            if guards:
+            sub = (lambda n_, s_: self.ev_cond(n_, s_)) if truth_only else (lambda n_, s_: self.ev(n_, s_))
+            if guards and id(keys[k]) in st.decided:
+                # the statement is re-executed for one side of a split on "is this operand evaluated at all" (see below)
+                go = st.take_decided(keys[k])[1]
+                g_all = z3.And(*guards)
+                if not go:
+                    st.assume(z3.Not(g_all))
+                    break
+                st.assume(g_all)
+                guards = []
+                raw = sub(v, s2)
+            elif guards:
                 # an operand that Python may skip: its side effects on the environment (made by call models) apply only
                 # under the guards - evaluate on a copy and merge the changed entries conditionally
                 env0 = st.env
                 s2.env = dict(env0)
-                t = self.truthy(self.ev(v, s2))
                 g_all = z3.And(*guards)
+                try:
+                    raw = sub(v, s2)
+                except (Fork, PyRaise):
+                    if in_spec:
+                        raise
+                    # the operand raises, or its evaluation splits the path (a call model with several outcomes): both happen
+                    # only if the operand is evaluated - split the path on that first, then the operand is evaluated (or not)
+                    # unconditionally
+                    s2.env = env0
+                    raise Fork(keys[k], [('operand%d-skipped' % k, z3.Not(g_all), 'boolop', False), ('operand%d-evaluated' % k, g_all, 'boolop', True)])
                 for key, nv in s2.env.items():
                     ov = env0.get(key)
                     if nv is ov or _same_value(nv, ov):
@@ -1575,29 +1641,42 @@ class Engine:
                             merged = z3.If(g_all, to_z3(nv, 'int'), to_z3(ov, 'int'))
                     except Undecided:
                         merged = None
-                    if merged is None:
-                        raise Undecided('side effect on %r inside a short-circuit operand cannot be merged' % key)
+                    if merged is None or key not in env0:
+                        if in_spec:
+                            raise Undecided('side effect on %r inside a short-circuit operand cannot be merged' % key)
+                        s2.env = env0
+                        raise Fork(keys[k], [('operand%d-skipped' % k, z3.Not(g_all), 'boolop', False), ('operand%d-evaluated' % k, g_all, 'boolop', True)])
                     env0[key] = merged
                 s2.env = env0
             else:
-                t = self.truthy(self.ev(v, s2))
+                raw = sub(v, s2)
+            t = raw if truth_only else self.truthy(raw)
             # facts assumed by call models while evaluating this operand (e.g. a clock reading) hold whenever the operand is
             # evaluated at all, i.e. under the short-circuit guards: keep them in the caller's path condition
             for fact in s2.pc[before:]:
                 st.assume(z3.Implies(z3.And(*guards), fact) if guards else fact)
             vals.append(t)
+            raws.append(raw)
             ts = z3.simplify(t)
-            if (isinstance(node.op, ast.And) and z3.is_false(ts)) or (isinstance(node.op, ast.Or) and z3.is_true(ts)):
+            if (is_and and z3.is_false(ts)) or (not is_and and z3.is_true(ts)):
                 break  # decided by a concrete operand: Python does not evaluate the rest
-            g = t if isinstance(node.op, ast.And) else z3.Not(t)
+            g = t if is_and else z3.Not(t)
             guards.append(g)
             s2.pc.append(g)
-        return z3.And(*vals) if isinstance(node.op, ast.And) else z3.Or(*vals)
+        if truth_only or all(isinstance(r, bool) or (isinstance(r, z3.ExprRef) and z3.is_bool(r)) for r in raws):
+            return z3.And(*vals) if is_and else z3.Or(*vals)
+        # `x and y` / `x or y` return one of their operands, not a truth value
+        res = raws[-1]
+        for k in range(len(raws) - 2, -1, -1):
+            res = self.ite_value(vals[k], res, raws[k]) if is_and else self.ite_value(vals[k], raws[k], res)
+        return res
 
     def ev_UnaryOp(self, node, st):
+        if isinstance(node.op, ast.Not):
+            return z3.Not(self.ev_cond(node.operand, st))
         v = self.ev(node.operand, st)
         if isinstance(node.op, ast.Not):
-            return z3.Not(self.truthy(v))
+            return z3.Not(self.truthy(v))  # (not reached: `not` is evaluated by ev_cond below)
         if isinstance(node.op, ast.USub):
             return -v if not isinstance(v, bool) else -int(v)
         if isinstance(node.op, ast.UAdd):
@@ -1610,10 +1689,10 @@ class Engine:
             # re-execution starts from the state before the statement, so what evaluating the test does to the state has to
             # happen again) and only the chosen branch is evaluated
             taken = st.take_decided(node)[1]
-            c = self.truthy(self.ev(node.test, st))
+            c = self.ev_cond(node.test, st)
             st.assume(c if taken else z3.Not(c))
             return self.ev(node.body if taken else node.orelse, st)
-        c = self.truthy(self.ev(node.test, st))
+        c = self.ev_cond(node.test, st)
         cs = z3.simplify(c)
         if z3.is_true(cs):
             return self.ev(node.body, st)  # Python evaluates only the branch taken
@@ -1633,7 +1712,12 @@ class Engine:
             s2.decided_used = st.decided_used
             s2.trace = st.trace
             n0 = len(s2.pc)
-            outs.append(self.ev(br, s2))
+            try:
+                outs.append(self.ev(br, s2))
+            except PyRaise:
+                # the branch raises (a constant index out of range, a division by a literal zero): that happens only if the
+                # branch is taken - split the path as for a branch that calls something
+                raise Fork(node, [('ifexp-then', c, 'ifexp', True), ('ifexp-else', z3.Not(c), 'ifexp', False)])
             for fact in s2.pc[n0:]:
                 st.assume(z3.Implies(g, fact))
         a, b = outs
